@@ -96,10 +96,32 @@ def run(ctx):
                         (' (halved under the hosting / VPN flag)' if halved else ' — no halving found')))
         if n < 4:
             ctx.ob('HALVING', 'limits-found:%s' % can, False, cb.where(), 'only %d counter-vs-limit comparisons recognised in %s' % (n, can))
-    ctx.floor('PAIR', 4)
+    ctx.floor('PAIR', 5)
     ctx.floor('CHECK-BEFORE-INCREMENT', 4)
     ctx.floor('CAP-CONSULTED', 8)
     ctx.floor('HALVING', 8)
+    # who may change the admission counters: only the add / remove pairs above (and constructors). Anything else that
+    # puts, pops, clears or resizes a counter table desynchronises the counts from the admitted set.
+    MUT = r'LruCache::<.*>::(put|push|pop|pop_lru|pop_entry|clear|resize|get_mut|peek_mut|get_or_insert_mut|iter_mut)$'
+    allowed_roots = set(ENF + '::' + n for pr in pairs for n in pr[:2]) | {ENF + '::new', ENF + '::with_config', ENF + '::with_capacity'}
+    counter_fields = set()
+    for add, rem, can in pairs:
+        counter_fields |= set(tables(prog.body(ENF + '::' + add), r'LruCache::<.*>::put$'))
+    nmut = 0
+    for b in prog.bodies.containing(json.dumps(ENF)):
+        for c in b.calls(MUT):
+            e = b.expr(c.args[0]).strip()
+            if not (e.k == 'field' and e.b.startswith(ENF + '::') and e.b.rsplit('::', 1)[-1] in counter_fields):
+                continue
+            nmut += 1
+            okw = b.root in allowed_roots
+            if okw:
+                continue
+            n = sum(1 for o in ctx.obls if o.key.startswith('counter-writer:%s' % b.root))
+            ctx.ob('PAIR', 'counter-writer:%s#%d' % (b.root, n), False, c.where(),
+                   '%s changes the %s counter in %s: counters may only move in the add / remove pairs' % (c.short(), e.b.rsplit('::', 1)[-1], b.root), entry=b.root)
+    ctx.ob('PAIR', 'counter-writers-closed', nmut >= 16, 'src/security.rs',
+           '%d mutating calls on the %d counter tables, all inside add_node / remove_node / add_ipv4 / remove_ipv4 / constructors' % (nmut, len(counter_fields)))
     # unified dispatch
     for fn, v4, v6 in (('can_accept_unified', 'can_accept_ipv4', 'can_accept_node'), ('add_unified', 'add_ipv4', 'add_node'), ('remove_unified', 'remove_ipv4', 'remove_node')):
         b = prog.body(ENF + '::' + fn)
